@@ -530,6 +530,8 @@ class Program:
                                 changed = True
             for h in new - still_called:
                 self.absorbed[h] = self.fns.pop(h)
+        for f_ in list(self.fns.values()) + list(self.absorbed.values()):
+            f_.prog = self
 
     def fn(self, path):
         f = self.fns.get(path)
